@@ -62,6 +62,9 @@ def judge(case, obs, resp):
         return {"status": "oracle", "why": f"read/write raised {obs['exc']}: {obs.get('msg')}"}
     if not resp["holds"]:
         return {"status": "oracle", "why": f"x={codec.dec_str(case['x'])!r}: got {show(obs)}; exact model {show(resp.get('model'))}"}
+    if case.get("perturbed") is False and obs.get("y") != case["x"]:
+        # third clause of the property: x was itself produced by a write (of canonical data), so it is reproduced exactly
+        return {"status": "oracle", "why": f"content produced by a write is not reproduced exactly: x={codec.dec_str(case['x'])!r} read-then-write gives {codec.dec_str(obs['y'])!r}"}
     if not resp["agree"]:
         return {"status": "corr", "why": f"model {show(resp.get('model'))} vs implementation {show(obs)}"}
     return {"status": "ok", "why": ""}
@@ -181,7 +184,7 @@ def random_case(rng):
     regs = c05.make_regs(rng)
     perts = set()
     lines = []
-    for _ in range(rng.randrange(0, 10)):
+    for _ in range(fsup.nlines(rng, 10)):
         r0 = rng.random()
         if r0 < 0.2:
             lines.append(rng.choice(c05.FREE_TEXT))
@@ -230,6 +233,11 @@ def written_case(rng):
         RF, classes, f = c05.build_file(case)
         buf = StringIO()
         f.write(buf)
+        # a hand-built file may hold free text that a declared type would claim on reading (C05 excludes
+        # such files): the exact-reproduction clause is then not demanded, only the fixed point
+        looks_typed = any(isinstance(e, DefaultRegister) and isinstance(e.data, str) and any(c.matches(e.data) for c in classes) for e in f.data)
+        if looks_typed:
+            return {"regs": case["regs"], "x": codec.enc_str(buf.getvalue()), "perts": ["produced_by_write", "free_text_a_declared_type_claims"]}
         return {"regs": case["regs"], "x": codec.enc_str(buf.getvalue()), "perts": ["produced_by_write"], "perturbed": False}
     except Exception:
         return {"regs": case["regs"], "x": [], "perts": ["produced_by_write"], "perturbed": False}
